@@ -129,7 +129,7 @@ func newEnv(n int) *env {
 		e.acct[fmt.Sprintf("V%d", i+1)] = v
 	}
 	for name, idx := range map[string]int{"K1": 20, "K2": 21, "W1": 22, "W2": 23, "X": 30, "c1": 40, "c2": 41,
-		"o1": 50, "o2": 51, "B": 52, "ra": 60, "rb": 61, "rc": 62, "rd": 63} {
+		"o1": 50, "o2": 51, "B": 52, "ra": 60, "rb": 61, "rc": 62, "rd": 63, "D1": 70, "D2": 71, "E1": 72} {
 		e.acct[name] = polyenv.Key(idx)
 	}
 	return e
@@ -167,6 +167,8 @@ type extra struct {
 
 type group struct {
 	depth  int // 0 = quorum+2 (+1 with request events)
+	joined int // consensus validators the setup adds to the genesis set (through register/approve/commitDpos)
+	views0 int // validator-set changes performed by the setup
 	name   string
 	setup  func(w gov.Execer)
 	pairs  []*pair
@@ -575,8 +577,31 @@ func (e *env) groups(level int) []*group {
 			must(e.scRequest(w, side_chain_manager.REGISTER_SIDE_CHAIN, "o1", 1, "reg", h0), "reg 1")
 		}, pairs: []*pair{with(e.pScReg(1), append(e.firstVals(q1), "X")), with(e.pBlack(e.vname(e.N)), e.firstVals(q))}})
 	}
+	// 12 consensus members whose registered OWNER address differs from the address derived from their node key:
+	// V1's wallet registers two more nodes D1, D2 and the outsider X registers node E1 (registerCandidate lets any
+	// address register any public key); all are approved and an operator commitDpos makes them consensus validators.
+	// "Consensus validator" for an approver address means (unchanged code and reference alike): the address derived
+	// from the public key of a ConsensusStatus peer of the current view — NOT the owner address stored in the pool
+	// item. So here V1's address is ONE validator although it owns three nodes, D1/D2/E1's key addresses are
+	// validators, and X (owner of E1) is not. Pool size N+3 makes a per-owned-node count move the quorum point.
+	if level == 2 {
+		n3 := e.N + 3
+		ownersAll := append(e.firstVals(e.N), "D1", "D2", "E1", "X")
+		gs = append(gs, &group{name: "ownerAddressDiffersFromKeyAddress", joined: 3, views0: 1, depth: gov.Quorum(n3) + 2,
+			setup: func(w gov.Execer) {
+				for _, c := range [][2]string{{"D1", "V1"}, {"D2", "V1"}, {"E1", "X"}} {
+					must(e.regCandidate(w, c[0], c[1]), "registerCandidate "+c[0]+" owned by "+c[1])
+					p := e.pCand(c[0])
+					e.approveBy(w, p, self(p), "approveCandidate "+c[0])
+				}
+				must(gov.CallOperator(w, gov.NM, node_manager.COMMIT_DPOS, nil, e.vals, h0), "commitDpos")
+				must(e.scRequest(w, side_chain_manager.REGISTER_SIDE_CHAIN, "o1", 1, "reg", h0+10), "reg 1")
+				must(gov.Call(w, gov.RM, relayer_manager.REGISTER_RELAYER, gov.RelayerList(addrs(e, "ra"), e.a(x).Addr), e.a(x), h0+10), "registerRelayer 0")
+			},
+			pairs: []*pair{with(e.pScReg(1), ownersAll), with(e.pRelReg(0, "ra"), []string{"V1", "D1", "X"})}})
+	}
 	for _, g := range gs {
-		if g.name == "validatorSetShrinks" {
+		if g.name == "validatorSetShrinks" || g.name == "ownerAddressDiffersFromKeyAddress" {
 			continue
 		}
 		var ps []*pair
@@ -803,15 +828,17 @@ func (x *explorer) initial() state {
 		x.r.HarnessError("map-backed world diverges from the leveldb-backed polyenv world: %s", diff)
 	}
 	init := state{D: w.Dump(), M: model{Appr: map[string][]string{}, Inst: map[string][]string{}, Cont: map[string]map[string][]string{}, Status: map[string]int{}}}
-	// model pool = observation of the initial world (names instead of keys)
+	init.M.Views = x.g.views0
+	// model pool = observation of the initial world: an account is a pool member iff the pool holds ITS PUBLIC KEY
+	// (approvers sign with that key, so the approver address is the key-derived one; owner addresses play no role)
 	_, pool := gov.Pool(init.D.Map())
 	for name, a := range x.e.acct {
 		if st, ok := pool[a.PubHex]; ok {
 			init.M.Status[name] = st
 		}
 	}
-	if len(init.M.consensus()) != x.e.N {
-		x.r.HarnessError("initial validator set %d != %d", len(init.M.consensus()), x.e.N)
+	if len(init.M.consensus()) != x.e.N+x.g.joined {
+		x.r.HarnessError("initial validator set %d != %d", len(init.M.consensus()), x.e.N+x.g.joined)
 	}
 	return init
 }
@@ -875,7 +902,7 @@ func main() {
 	for _, c := range cfgs {
 		e := newEnv(c.n)
 		for _, g := range e.groups(c.level) {
-			if g.name == "validatorSetShrinks" { // small: run first so a deadline never cuts it
+			if g.name == "validatorSetShrinks" || g.name == "ownerAddressDiffersFromKeyAddress" { // small: run first so a deadline never cuts it
 				jobs = append(jobs, job{c, e, g})
 			} else {
 				later = append(later, job{c, e, g})
